@@ -16,6 +16,12 @@
           5 tag scan of ADFI_stridx_c over a non-terminated char array (stack)
           6 memcpy with negative length (ADFI_read_file)     7 the caller's data buffer (ADF_Read_All_Data)
           8 link_file[1025] / link_path[4097] (stack, ADFI_chase_link)
+
+   The code exists in two states: as it was when C13 was first checked ([legacy]) and with the repairs of
+   notes/C13-fixes/NN-*.diff applied ([repaired]).  Every repair is one switch of the record [fixes]; a function whose
+   C text a repair changes takes the record and follows the old or the new text.  checks/C13.py finds out, by running
+   the witness files of corpus/C13 on the library built from the working tree, which state each switch is in, and
+   compares the library with the model in that state.
    No proofs in this file. *)
 From Coq Require Import ZArith List Bool.
 From CgnsV Require Import ListX Fuel.
@@ -23,6 +29,28 @@ Import ListNotations.
 Local Open Scope Z_scope.
 
 Definition bytes := list Z.
+
+(* one switch per repair (notes/C13-fixes):
+   fx_snt   01 sub-node table length must equal the header's entry count; num_sub_nodes <= entries_for_sub_nodes
+   fx_dct   02 data-chunk table length must equal the header's number_of_data_chunks
+   fx_link  03 ADF_Get_Link_Path / ADF_Link_Size: type exactly LK, one dimension, 1 <= length <= 5121 / file_bytes,
+               file part <= 1024 and path part <= 4096 characters
+   fx_nest  04 ADF_MAXIMUM_LINK_DEPTH also bounds the nesting of ADFI_chase_link activations
+   fx_fmt   05 unknown format / OS-size letters are ADF_FILE_FORMAT_NOT_RECOGNIZED (was: assert, shift of a negative char)
+   fx_tag   06 boundary tags of node header and free-chunk table compared over exactly 4 bytes
+   fx_dtov  07 data-type sizes that do not fit an int are INVALID_DATA_TYPE (was: signed overflow)
+   fx_rtype 08 ADF_Read_All_Data compares the caller's type with the node's whole type (was: first 2 characters)
+   fx_dim   11 ADF_Get_Dimension_Values refuses values >= 2^63
+   fx_short 13 ADFI_read_file refuses bytes beyond what the (short) block read obtained, and negative lengths
+   fx_sizes 14 untranslated copy only if the header's type sizes equal the machine's *)
+Record fixes := { fx_snt : bool; fx_dct : bool; fx_link : bool; fx_nest : bool; fx_fmt : bool; fx_tag : bool;
+                  fx_dtov : bool; fx_rtype : bool; fx_dim : bool; fx_short : bool; fx_sizes : bool }.
+Definition legacy : fixes :=
+  {| fx_snt := false; fx_dct := false; fx_link := false; fx_nest := false; fx_fmt := false; fx_tag := false;
+     fx_dtov := false; fx_rtype := false; fx_dim := false; fx_short := false; fx_sizes := false |}.
+Definition repaired : fixes :=
+  {| fx_snt := true; fx_dct := true; fx_link := true; fx_nest := true; fx_fmt := true; fx_tag := true;
+     fx_dtov := true; fx_rtype := true; fx_dim := true; fx_short := true; fx_sizes := true |}.
 
 Inductive out (A : Type) : Type :=
 | Ok (a : A) | Err (code : Z) | OOBW (site : Z) | OOBR (site : Z) | Uninit | Stale | Abort | UB | Ext | OutOfFuel.
@@ -46,6 +74,7 @@ Definition E_NO_DATA := 33. Definition E_DATA_TOO_LONG := 35. Definition E_MIN_G
 Definition E_NATIVE_FORMAT := 40. Definition E_LINKS_TOO_DEEP := 50. Definition E_NOT_A_LINK := 51.
 Definition E_LINK_TARGET := 52. Definition E_INCOMPLETE_DATA := 55. Definition E_INVALID_NODE_NAME := 56.
 Definition E_INVALID_VERSION := 57. Definition E_MACHINE_FILE := 60. Definition E_MAX_FILE_SIZE := 63.
+Definition E_SNT_ENTRIES_BAD := 24. Definition E_BAD_DIM_VALUE := 47. Definition E_CONV_FORMATS_EQUAL := 41.
 
 Definition W32 := 4294967296.              (* 2^32 *)
 Definition W64 := 18446744073709551616.    (* 2^64 *)
@@ -109,6 +138,7 @@ Fixpoint le_enc (n : nat) (v : Z) : bytes := match n with O => [] | S n' => (v m
 Definition conv_mode (fmt : Z) : out bool :=
   if fmt =? 78 then Err E_NATIVE_FORMAT
   else if fmt =? 76 then Ok false
+  else if fmt >=? 128 then UB                (* EVAL_2_BYTES(from_format, ..) shifts a negative char *)
   else if (fmt =? 66) || (fmt =? 67) then Ok true
   else Err E_FMT_NOT_RECOGNIZED.
 Definition conv_int (fmt : Z) (s : bytes) : out Z :=
@@ -178,6 +208,9 @@ Fixpoint tagscan_from (t tag : bytes) (first : bool) : out bool :=
                     end
   end.
 Definition tagscan (t tag : bytes) : out bool := tagscan_from t tag true.
+(* repair 06: ADFI_tag_differs compares exactly the 4 characters (case-insensitively, like the scan at position 0) *)
+Definition tag4 (t tag : bytes) : bool := beq (map upc (firstn 4 t)) (map upc tag).
+Definition tagcheck (c : fixes) (t tag : bytes) : out bool := if fx_tag c then Ok (tag4 t tag) else tagscan t tag.
 (* the same on a NUL-terminated 5-byte tag[] array (tag[4] = 0 was stored by the caller) *)
 Definition tag_eq_ci (t tag : bytes) : bool :=
   match tagscan (t ++ [0]) tag with Ok true => true | _ => false end.
@@ -199,9 +232,12 @@ Definition header_tags_ok (d : bytes) : bool :=
   beq (sub d 102 4) (tag_AdF 3) && beq (sub d 130 4) (tag_AdF 4) && beq (sub d 182 4) (tag_AdF 5).
 
 (* ADFI_read_file_header on the 186 bytes it read; [a] = what ADFI_open_file remembered *)
-Definition dec_file_header (a : fattr) (d : bytes) : out file_header :=
+Definition fmt_letter (x : Z) : bool := (x =? 66) || (x =? 76) || (x =? 67) || (x =? 78).
+Definition os_letter (x : Z) : bool := (x =? 76) || (x =? 66).
+Definition dec_file_header (c : fixes) (a : fattr) (d : bytes) : out file_header :=
   if negb (header_tags_ok d) then Err E_MEM_TAG
-  else if (fa_fmt a =? 0) || (fa_os a =? 0) then Abort          (* assert(format != UNDEFINED_FORMAT) *)
+  else if fx_fmt c && negb (fmt_letter (fa_fmt a) && os_letter (fa_os a)) then Err E_FMT_NOT_RECOGNIZED
+  else if negb (fx_fmt c) && ((fa_fmt a =? 0) || (fa_os a =? 0)) then Abort   (* assert(format != UNDEFINED_FORMAT) *)
   else
     sz <- hex_fields (sub d 106 24) 2 12 255 ;;
     r <- dp_dec a (sub d 134 12) ;;
@@ -223,10 +259,10 @@ Fixpoint dp_fields (a : fattr) (s : bytes) (n : nat) : out (list ptr) :=
   | O => Ok []
   | S n' => p <- dp_dec a (firstn 12 s) ;; r <- dp_fields a (skipn 12 s) n' ;; Ok (p :: r)
   end.
-Definition dec_fct (a : fattr) (d : bytes) : out (list ptr) :=
-  s <- tagscan d tag_fCbt ;;
+Definition dec_fct (c : fixes) (a : fattr) (d : bytes) : out (list ptr) :=
+  s <- tagcheck c d tag_fCbt ;;
   if negb s then Err E_DISK_TAG else
-  e <- tagscan (skipn 76 d) tag_Fcte ;;
+  e <- tagcheck c (skipn 76 d) tag_Fcte ;;
   if negb e then Err E_DISK_TAG else
   dp_fields a (sub d 4 72) 6.
 Definition enc_fct (a : fattr) (ps : list ptr) : bytes := tag_fCbt ++ flat_map (dp_enc a) ps ++ tag_Fcte.
@@ -242,13 +278,14 @@ Fixpoint int_fields (fmt : Z) (s : bytes) (w n : nat) : out (list Z) :=
   | S n' => v <- conv_int fmt (firstn w s) ;; r <- int_fields fmt (skipn w s) w n' ;; Ok (v :: r)
   end.
 
-Definition dec_node_header (a : fattr) (d : bytes) : out node_header :=
-  s <- tagscan d tag_NoDe ;;
+Definition dec_node_header (c : fixes) (a : fattr) (d : bytes) : out node_header :=
+  s <- tagcheck c d tag_NoDe ;;
   if negb s then Err E_DISK_TAG else
-  e <- tagscan (skipn 242 d) tag_TaiL ;;
+  e <- tagcheck c (skipn 242 d) tag_TaiL ;;
   if negb e then Err E_DISK_TAG else
   nsub <- hex2uint 0 (W32 - 1) (sub d 68 8) ;;
   ent <- hex2uint 0 (W32 - 1) (sub d 76 8) ;;
+  if fx_snt c && (nsub >? ent) then Err E_SNT_ENTRIES_BAD else
   snt <- dp_dec a (sub d 84 12) ;;
   nd <- hex2uint 0 12 (sub d 128 2) ;;
   dims <- (if fa_old a then hex_fields (sub d 130 96) 8 12 (W32 - 1)
